@@ -37,6 +37,8 @@ type Prog struct {
 	fidx          *fieldIndex
 	rolesCache    *Roles
 	reach         map[*ssa.Function]bool
+	reqReach      map[*ssa.Function]bool
+	leaderCbs     map[string][]*ssa.Function
 	batchCache    []*batchModel
 	lockCache     *lockCtx
 	liftCache     map[*ssa.Function]liftEntry
@@ -410,10 +412,11 @@ func (p *Prog) funcValues(v ssa.Value, depth int) []*ssa.Function {
 	}
 	switch v := v.(type) {
 	case *ssa.Function:
-		return []*ssa.Function{v}
+		return []*ssa.Function{unwrapSynthetic(v)}
 	case *ssa.MakeClosure:
 		if f, ok := v.Fn.(*ssa.Function); ok {
-			return []*ssa.Function{f}
+			// a method value x.m is a closure over the synthetic bound-method wrapper: name the method itself
+			return []*ssa.Function{unwrapSynthetic(f)}
 		}
 	case *ssa.ChangeType:
 		return p.funcValues(v.X, depth+1)
@@ -579,5 +582,130 @@ func (p *Prog) reachableFromMain() map[*ssa.Function]bool {
 		}
 	}
 	p.reach = reach
+	return reach
+}
+
+
+// requestEntries: the functions through which a client request enters the node: the repo's implementations of the
+// gRPC service interfaces (interfaces named *Server of the etcd and kubebrain API packages) and every function or
+// function literal with the net/http handler signature.
+func (p *Prog) requestEntries() []*ssa.Function {
+	var out []*ssa.Function
+	seen := map[*ssa.Function]bool{}
+	add := func(f *ssa.Function) {
+		if f != nil && !seen[f] && f.Blocks != nil {
+			seen[f] = true
+			out = append(out, f)
+		}
+	}
+	var ifaces []*types.Interface
+	for _, pk := range p.SSA.AllPackages() {
+		pp := pk.Pkg.Path()
+		if !strings.HasSuffix(pp, "etcdserverpb") && !strings.Contains(pp, "kubebrain-client/api") {
+			continue
+		}
+		sc := pk.Pkg.Scope()
+		for _, n := range sc.Names() {
+			tn, ok := sc.Lookup(n).(*types.TypeName)
+			if !ok || !strings.HasSuffix(n, "Server") {
+				continue
+			}
+			if it, ok := tn.Type().Underlying().(*types.Interface); ok && it.NumMethods() > 0 {
+				ifaces = append(ifaces, it)
+			}
+		}
+	}
+	for _, sp := range p.SSAPkgs {
+		sc := sp.Pkg.Scope()
+		for _, n := range sc.Names() {
+			tn, ok := sc.Lookup(n).(*types.TypeName)
+			if !ok {
+				continue
+			}
+			if _, isIface := tn.Type().Underlying().(*types.Interface); isIface {
+				continue
+			}
+			T := types.NewPointer(tn.Type())
+			for _, it := range ifaces {
+				if !types.Implements(T, it) {
+					continue
+				}
+				ms := p.SSA.MethodSets.MethodSet(T)
+				for i := 0; i < it.NumMethods(); i++ {
+					if sel := ms.Lookup(it.Method(i).Pkg(), it.Method(i).Name()); sel != nil {
+						add(unwrapSynthetic(p.SSA.MethodValue(sel)))
+					}
+				}
+			}
+		}
+	}
+	for _, f := range p.AllFuncs {
+		sig := f.Signature
+		if sig.Params().Len() == 2 && isNamed(sig.Params().At(0).Type(), "net/http", "ResponseWriter") {
+			if pt, ok := sig.Params().At(1).Type().(*types.Pointer); ok && isNamed(pt.Elem(), "net/http", "Request") {
+				add(f)
+			}
+		}
+	}
+	sort.Slice(out, func(i, j int) bool { return funcName(out[i]) < funcName(out[j]) })
+	return out
+}
+
+// requestReachable: over-approximation of the repo functions that can run on behalf of a request: forward closure
+// of requestEntries over static calls, interface invokes (every repo implementation), function values, created
+// closures, go and defer statements.
+func (p *Prog) requestReachable() map[*ssa.Function]bool {
+	if p.reqReach != nil {
+		return p.reqReach
+	}
+	reach := map[*ssa.Function]bool{}
+	var work []*ssa.Function
+	add := func(f *ssa.Function) {
+		if f == nil || reach[f] || f.Blocks == nil {
+			return
+		}
+		top := f
+		for top.Parent() != nil {
+			top = top.Parent()
+		}
+		if top.Pkg == nil || !strings.HasPrefix(top.Pkg.Pkg.Path(), modPath) {
+			return
+		}
+		reach[f] = true
+		work = append(work, f)
+	}
+	for _, f := range p.requestEntries() {
+		add(f)
+	}
+	for len(work) > 0 {
+		f := work[0]
+		work = work[1:]
+		for _, b := range f.Blocks {
+			for _, ins := range b.Instrs {
+				switch x := ins.(type) {
+				case ssa.CallInstruction:
+					for _, g := range p.calleesOf(x) {
+						add(g)
+					}
+					if sc := x.Common().StaticCallee(); sc != nil {
+						add(sc)
+					}
+					for _, a := range x.Common().Args {
+						if _, isFn := a.Type().Underlying().(*types.Signature); isFn {
+							for _, g := range p.funcValues(a, 0) {
+								add(g)
+							}
+						}
+					}
+				case *ssa.MakeClosure:
+					if g, ok := x.Fn.(*ssa.Function); ok {
+						add(g)
+						add(unwrapSynthetic(g))
+					}
+				}
+			}
+		}
+	}
+	p.reqReach = reach
 	return reach
 }
